@@ -337,6 +337,10 @@ theorem c08_class_core (O : Oracles) (opts : DeserOpts) (c : ClassOpts) (fields 
     by simp [h1, vConstruct, hbind, hattrs]⟩
 
 
+/-- in the exact fragment no direct element is an `Optional[X]`: the element-position wrapper is the identity -/
+theorem c08_elemWrap_exact (f : FieldDecl) (s : PyVal) (h : isOptionalF f = false) : elemWrap f s = s := by
+  cases f <;> simp [isOptionalF] at h <;> simp [elemWrap, isOptional]
+
 /-! ### maps -/
 
 theorem c08_deser_strkey (O : Oracles) (opts : DeserOpts) (ks : String) :
@@ -404,7 +408,7 @@ theorem c08_exactN (O : Oracles) (S : String → String → Bool)
     have hu : sz.uniq = false := by simpa using hf.1.1.2
     simp only [RefsFaithful] at hrf
     simp only [refDepth] at hd
-    simp only [emit] at h
+    simp only [emit, c08_elemWrap_exact f _ (by simpa using hf.1.2)] at h
     obtain ⟨xs, rfl, hsz, hall⟩ := c08_jsV_arrOf_inv _ S sz (emit true f) (emit_shape true f) v h
     simp only [jsonDoc] at hj
     obtain ⟨ys, ys', hdd, hv, hl⟩ := c08_exact_items O opts f
@@ -421,7 +425,7 @@ theorem c08_exactN (O : Oracles) (S : String → String → Bool)
     subst hu
     simp only [RefsFaithful] at hrf
     simp only [refDepth] at hd
-    simp only [emit] at h
+    simp only [emit, c08_elemWrap_exact f _ (by simpa using hf.1.2)] at h
     obtain ⟨xs, rfl, _, hall⟩ := c08_jsV_arrOf_inv _ S { uniq := false } (emit true f) (emit_shape true f) v h
     simp only [jsonDoc] at hj
     obtain ⟨ys, ys', hdd, hv, _⟩ := c08_exact_items O opts f
@@ -518,7 +522,7 @@ theorem c08_exactN (O : Oracles) (S : String → String → Bool)
   | .mapAny _, _, _, _, _, hf, _, _, _, _ => by simp [exactF] at hf
   | .mapOf k vf sz, n, opts, ign, v, hf, hrf, hd, hj, h => by
     simp only [exactF, and_true_iff'] at hf
-    obtain ⟨⟨⟨⟨hkey, hmin⟩, hmax⟩, _⟩, hvf⟩ := hf
+    obtain ⟨⟨⟨⟨hkey, hmin⟩, hmax⟩, hnopt⟩, hvf⟩ := hf
     have hk : k = .string none none none := by
       cases k <;> simp [exactKey] at hkey
       rename_i lo hi pat
@@ -532,7 +536,7 @@ theorem c08_exactN (O : Oracles) (S : String → String → Bool)
     have hszeq : mapKws (some (FieldDecl.string none none none)) (some (emit true vf)) sz
         = mapKws (some (FieldDecl.string none none none)) (some (emit true vf)) {} := by
       simp [mapKws, hmin', hmax']
-    simp only [emit, hszeq] at h
+    simp only [emit, c08_elemWrap_exact vf _ (by simpa using hnopt), hszeq] at h
     obtain ⟨kvs, rfl, hall⟩ := c08_jsV_mapOf_inv _ S _ (emit true vf) (emit_shape true vf) (by decide) v h
     simp only [jsonDoc] at hj
     obtain ⟨r, hr, hrall⟩ := c08_map_entries O opts vf
